@@ -634,6 +634,10 @@ fn spawn_async_ao_list_in_task'''),
         ('end-tag-match-attempted-on-an-empty-token-before-the-body', 'brush-parser/src/tokenizer.rs', "                    if (matches!(self.cross_state.here_state, HereState::InHereDocs)\n                        || state.started_token())\n                        && self.remove_here_end_tag(&mut state, &mut result, false)?\n                    {", "                    if self.remove_here_end_tag(&mut state, &mut result, false)? {"),
         ('end-tag-reported-matched-without-delimiting', 'brush-parser/src/tokenizer.rs', "                // Delimit the end of the here-document body.\n                *result = state.delimit_current_token(\n                    TokenEndReason::HereDocumentBodyEnd,\n                    &mut self.cross_state,\n                )?;\n", ""),
     ],
+    'U33': [
+        ('plain-key-tried-before-the-quote-aware-key', 'brush-parser/src/word.rs', [('            "[" inner:array_index() "]=" value:$([_]*) {\n                (Some(inner.to_owned()), value.to_owned())\n            } /\n            "[" inner:$((!"]" [_])*) "]=" value:$([_]*) {', '            "[" inner:$((!"]" [_])*) "]=" value:$([_]*) {\n                (Some(inner.to_owned()), value.to_owned())\n            } /\n            "[" inner:array_index() "]=" value:$([_]*) {')]),
+        ('quote-aware-alternative-dropped', 'brush-parser/src/word.rs', '            "[" inner:array_index() "]=" value:$([_]*) {\n                (Some(inner.to_owned()), value.to_owned())\n            } /\n', ''),
+    ],
     'U32': [
         ('negation-and-leading-close-bracket-swapped', 'brush-parser/src/pattern.rs', '"[" invert:(invert_char()?) leading:leading_close_bracket()? rest:bracket_member()* "]" {?', '"[" leading:leading_close_bracket()? invert:(invert_char()?) rest:bracket_member()* "]" {?'),
         ('leading-close-bracket-not-optional', 'brush-parser/src/pattern.rs', '"[" invert:(invert_char()?) leading:leading_close_bracket()? rest:bracket_member()* "]" {?', '"[" invert:(invert_char()?) leading:leading_close_bracket() rest:bracket_member()* "]" {?'),
